@@ -891,3 +891,388 @@ Proof.
   split; [reflexivity|]. intros rotate H. apply wf_document_lt_ok in H.
   destruct rotate; vm_compute in H; discriminate.
 Qed.
+
+(** * Counting elements directly on the string *)
+
+(** [decided p l]: whether [p] starts [l ++ r] does not depend on [r]. *)
+Fixpoint decided (p l : string) : bool :=
+  match p with
+  | EmptyString => true
+  | String a p' =>
+      match l with
+      | EmptyString => false
+      | String b l' => if Ascii.eqb a b then decided p' l' else true
+      end
+  end.
+
+Lemma decided_starts p : forall l r, decided p l = true -> starts p (l ++ r) = starts p l.
+Proof.
+  induction p as [|a p IH]; intros l r H; simpl in *; [reflexivity|].
+  destruct l as [|b l]; [discriminate|]. simpl.
+  destruct (Ascii.eqb a b); [now rewrite IH | reflexivity].
+Qed.
+
+Lemma decided_app p : forall l r, decided p l = true -> decided p (l ++ r) = true.
+Proof.
+  induction p as [|a p IH]; intros l r H; simpl in *; [reflexivity|].
+  destruct l as [|b l]; [discriminate|]. simpl.
+  destruct (Ascii.eqb a b); [now apply IH | reflexivity].
+Qed.
+
+(** All suffixes decided. *)
+Fixpoint asd (p l : string) : bool :=
+  match l with
+  | EmptyString => true
+  | String c l' => decided p l && asd p l'
+  end.
+
+Lemma asd_app p a b : asd p a = true -> asd p b = true -> asd p (a ++ b) = true.
+Proof.
+  intros Ha Hb. induction a as [|c a IH]; [exact Hb|].
+  cbn [asd] in Ha. apply andb_true_iff in Ha as [H1 H2].
+  cbn [append asd]. change (String c (a ++ b)) with (String c a ++ b).
+  now rewrite (decided_app _ _ _ H1), (IH H2).
+Qed.
+
+Lemma count_app p a b :
+  asd p a = true -> count_starts p (a ++ b) = count_starts p a + count_starts p b.
+Proof.
+  intros Ha. induction a as [|c a IH]; [reflexivity|].
+  cbn [asd] in Ha. apply andb_true_iff in Ha as [H1 H2].
+  cbn [append count_starts]. change (String c (a ++ b)) with (String c a ++ b).
+  rewrite (decided_starts _ _ _ H1), (IH H2). lia.
+Qed.
+
+Lemma no_lt_asd q v :
+  no_char "<" v = true -> asd (String "<" q) v = true /\ count_starts (String "<" q) v = 0.
+Proof.
+  induction v as [|c v IH]; [now split|]. intros H.
+  unfold no_char in H. cbn [all_chars] in H. apply andb_true_iff in H as [H1 H2].
+  apply negb_true_iff in H1. rewrite Ascii.eqb_sym in H1.
+  destruct (IH H2) as [I1 I2]. cbn [asd decided count_starts starts].
+  now rewrite H1, I1, I2.
+Qed.
+
+Definition vec4 : Type := (nat * nat * nat * nat)%type.
+
+Definition cv (s : string) : vec4 :=
+  (count_starts P_text s, count_starts P_circle s, count_starts P_edge s, count_starts P_wedge s).
+
+Definition d4 (s : string) : bool := asd P_text s && asd P_circle s && asd P_edge s && asd P_wedge s.
+
+Definition vadd (a b : vec4) : vec4 :=
+  let '(a1, a2, a3, a4) := a in let '(b1, b2, b3, b4) := b in (a1 + b1, a2 + b2, a3 + b3, a4 + b4).
+
+Definition vzero : vec4 := (0, 0, 0, 0).
+
+(** [pc s v]: the four counts of [s] are [v], and they are unaffected by what follows [s]. *)
+Definition pc (s : string) (v : vec4) : Prop := d4 s = true /\ cv s = v.
+
+Lemma pc_app a b va vb : pc a va -> pc b vb -> pc (a ++ b) (vadd va vb).
+Proof.
+  intros [Da Ca] [Db Cb]. unfold d4 in *.
+  apply andb_true_iff in Da as [Da A4]. apply andb_true_iff in Da as [Da A3]. apply andb_true_iff in Da as [A1 A2].
+  apply andb_true_iff in Db as [Db B4]. apply andb_true_iff in Db as [Db B3]. apply andb_true_iff in Db as [B1 B2].
+  split.
+  - now rewrite !asd_app.
+  - unfold cv in *. rewrite !count_app by assumption.
+    inversion Ca; subst. inversion Cb; subst. reflexivity.
+Qed.
+
+Lemma pc_nil : pc "" vzero.
+Proof. now split. Qed.
+
+Lemma pc_lit l : d4 l = true -> pc l (cv l).
+Proof. now split. Qed.
+
+Lemma pc_nolt v : no_char "<" v = true -> pc v vzero.
+Proof.
+  intros H. unfold pc, d4, cv, P_text, P_circle, P_edge, P_wedge, vzero.
+  destruct (no_lt_asd "text" v H) as [A1 C1]. destruct (no_lt_asd "circle" v H) as [A2 C2].
+  destruct (no_lt_asd "path stroke-width=" v H) as [A3 C3]. destruct (no_lt_asd "path d=""M " v H) as [A4 C4].
+  simpl append in *. now rewrite A1, A2, A3, A4, C1, C2, C3, C4.
+Qed.
+
+Lemma safe_no_lt v : safe_field v = true -> no_char "<" v = true.
+Proof.
+  apply all_chars_impl. unfold safe_char. intros c Hc.
+  apply andb_true_iff in Hc as [Hc _]. now apply andb_true_iff in Hc as [Hc _].
+Qed.
+
+Lemma pc_safe v : safe_field v = true -> pc v vzero.
+Proof. intros H. now apply pc_nolt, safe_no_lt. Qed.
+
+Lemma pc_eq s v v' : pc s v -> v = v' -> pc s v'.
+Proof. now intros H <-. Qed.
+
+Fixpoint vsum (l : list vec4) : vec4 :=
+  match l with [] => vzero | v :: t => vadd v (vsum t) end.
+
+Lemma pc_sconcat_map {A} (f : A -> string) (g : A -> vec4) l :
+  (forall x, In x l -> pc (f x) (g x)) -> pc (sconcat (map f l)) (vsum (map g l)).
+Proof.
+  induction l as [|x l IH]; intros H; [apply pc_nil|].
+  cbn [map sconcat vsum]. apply pc_app; [apply H; now left | apply IH; intros y Hy; apply H; now right].
+Qed.
+
+(** Leaves and templates. *)
+Ltac pc_leaf :=
+  first [ apply pc_safe; first [assumption | apply text_anchor_safe]
+        | apply pc_nolt; assumption
+        | apply pc_lit; reflexivity ].
+Ltac pc_tpl := eapply pc_eq; [ repeat (eapply pc_app; [pc_leaf|]); pc_leaf | reflexivity ].
+
+Lemma svg_node_pc x y size color sw sc :
+  safe_field x = true -> safe_field y = true -> safe_field size = true -> safe_field color = true ->
+  safe_field sw = true -> safe_field sc = true -> pc (svg_node x y size color sw sc) (0, 1, 0, 0).
+Proof. intros. unfold svg_node. pc_tpl. Qed.
+
+Lemma svg_wedge_pc x y size sw sc w :
+  safe_field x = true -> safe_field y = true -> safe_field size = true ->
+  safe_field sw = true -> safe_field sc = true -> wedge_safe w = true ->
+  pc (svg_wedge x y size sw sc w) (0, 0, 0, 1).
+Proof. intros Hx Hy Hs Hw Hk Hwd. unfold wedge_safe in Hwd. brk Hwd. unfold svg_wedge. pc_tpl. Qed.
+
+Lemma svg_edge_pc x1 y1 x2 y2 ew ec :
+  safe_field x1 = true -> safe_field y1 = true -> safe_field x2 = true -> safe_field y2 = true ->
+  safe_field ew = true -> safe_field ec = true -> pc (svg_edge x1 y1 x2 y2 ew ec) (0, 0, 1, 0).
+Proof. intros. unfold svg_edge. pc_tpl. Qed.
+
+Lemma svg_edge_directed_pc x1 y1 x2 y2 ew ec :
+  safe_field x1 = true -> safe_field y1 = true -> safe_field x2 = true -> safe_field y2 = true ->
+  safe_field ew = true -> safe_field ec = true -> pc (svg_edge_directed true x1 y1 x2 y2 ew ec) (0, 0, 1, 0).
+Proof. intros. unfold svg_edge_directed. pc_tpl. Qed.
+
+Lemma svg_marker_pc color : safe_field color = true -> pc (svg_marker color) vzero.
+Proof. intros. unfold svg_marker. pc_tpl. Qed.
+
+Lemma svg_text_pc repl x y text fs pos :
+  sanitiser_ok repl = true -> safe_field x = true -> safe_field y = true -> safe_field fs = true ->
+  pc (svg_text_with repl x y text fs pos) (1, 0, 0, 0).
+Proof.
+  intros Hr Hx Hy Hf. destruct (sanitised_text_safe repl text Hr) as [Hs _].
+  unfold svg_text_with. pc_tpl.
+Qed.
+
+Lemma svg_line_pc lw color x1 y1 x2 y2 :
+  safe_field lw = true -> safe_field color = true -> safe_field x1 = true -> safe_field y1 = true ->
+  safe_field x2 = true -> safe_field y2 = true -> pc (svg_line lw color x1 y1 x2 y2) (0, 0, 1, 0).
+Proof. intros. unfold svg_line. pc_tpl. Qed.
+
+Lemma dendrogram_text_top_pc repl rn fs t :
+  sanitiser_ok repl = true -> safe_field fs = true -> label_safe t = true ->
+  pc (dendrogram_text_top repl rn fs t) (1, 0, 0, 0).
+Proof.
+  intros Hr Hf Ht. unfold label_safe in Ht. brk Ht.
+  destruct (sanitised_text_safe repl (t_name t) Hr) as [Hs _].
+  unfold dendrogram_text_top. destruct rn; pc_tpl.
+Qed.
+
+Lemma dendrogram_text_left_pc repl fs t :
+  sanitiser_ok repl = true -> safe_field fs = true -> label_safe t = true ->
+  pc (dendrogram_text_left repl fs t) (1, 0, 0, 0).
+Proof.
+  intros Hr Hf Ht. unfold label_safe in Ht. brk Ht.
+  destruct (sanitised_text_safe repl (t_name t) Hr) as [Hs _].
+  unfold dendrogram_text_left. pc_tpl.
+Qed.
+
+Definition edge_vec (directed : bool) (e : edge) : vec4 := (0, 0, if drawn directed e then 1 else 0, 0).
+Definition node_vec (nd : node) : vec4 := (0, if is_circle_node nd then 1 else 0, 0, n_wedges nd).
+
+Lemma draw_edge_pc directed e : edge_safe e = true -> pc (draw_edge directed e) (edge_vec directed e).
+Proof.
+  intros He. unfold edge_safe in He. brk He. unfold draw_edge, edge_vec, drawn. destruct directed; cbn [negb orb].
+  - destruct (e_distinct e); [now apply svg_edge_directed_pc | apply pc_nil].
+  - now apply svg_edge_pc.
+Qed.
+
+Lemma vsum_const_wedge {A} (l : list A) : vsum (map (fun _ => (0, 0, 0, 1)) l) = (0, 0, 0, length l).
+Proof. induction l as [|x l IH]; [reflexivity|]. cbn [map vsum length]. now rewrite IH. Qed.
+
+Lemma draw_node_pc nd : node_safe nd = true -> pc (draw_node nd) (node_vec nd).
+Proof.
+  intros H. unfold node_safe in H. brk H. unfold draw_node, node_vec, is_circle_node, n_wedges.
+  destruct (n_shape nd) as [color | zs ws]; simpl in *.
+  - apply svg_node_pc; auto.
+  - brk S. unfold svg_pie_chart_node. destruct zs.
+    + apply svg_node_pc; auto.
+    + eapply pc_eq; [apply (pc_sconcat_map _ (fun _ => (0, 0, 0, 1)))|apply vsum_const_wedge].
+      intros w Hw. rewrite forallb_forall in S. apply svg_wedge_pc; auto.
+Qed.
+
+Lemma vsum_edges directed l :
+  vsum (map (edge_vec directed) l) = (0, 0, length (filter (drawn directed) l), 0).
+Proof.
+  induction l as [|e l IH]; [reflexivity|]. cbn [map vsum filter]. rewrite IH. unfold edge_vec.
+  destruct (drawn directed e); reflexivity.
+Qed.
+
+Definition total_wedges (nodes : list node) : nat := fold_right (fun nd acc => n_wedges nd + acc) 0 nodes.
+
+Lemma vsum_nodes l :
+  vsum (map node_vec l) = (0, length (filter is_circle_node l), 0, total_wedges l).
+Proof.
+  induction l as [|nd l IH]; [reflexivity|]. cbn [map vsum filter total_wedges fold_right]. rewrite IH. unfold node_vec.
+  destruct (is_circle_node nd); reflexivity.
+Qed.
+
+Lemma vsum_texts {A} (l : list A) : vsum (map (fun _ => (1, 0, 0, 0)) l) = (length l, 0, 0, 0).
+Proof. induction l as [|x l IH]; [reflexivity|]. cbn [map vsum length]. now rewrite IH. Qed.
+
+Lemma vsum_lines {A} (l : list A) : vsum (map (fun _ => (0, 0, 3, 0)) l) = (0, 0, 3 * length l, 0).
+Proof.
+  induction l as [|x l IH]; [reflexivity|]. cbn [map vsum length]. rewrite IH. cbn [vadd]. f_equal. f_equal. f_equal. lia.
+Qed.
+
+Lemma labels_pc repl fs pos names :
+  sanitiser_ok repl = true -> safe_field fs = true -> labels_safe names = true ->
+  pc (match names with None => "" | Some l => sconcat (map (draw_label repl fs pos) l) end) (n_labels names, 0, 0, 0).
+Proof.
+  intros Hr Hf Hn. destruct names as [l|]; [|apply pc_nil]. simpl in Hn. rewrite forallb_forall in Hn.
+  eapply pc_eq; [apply (pc_sconcat_map _ (fun _ => (1, 0, 0, 0))) | apply vsum_texts].
+  intros t Ht. specialize (Hn _ Ht). unfold label_safe in Hn. brk Hn. unfold draw_label. now apply svg_text_pc.
+Qed.
+
+Lemma edges_pc directed l :
+  forallb edge_safe l = true ->
+  pc (sconcat (map (draw_edge directed) l)) (0, 0, length (filter (drawn directed) l), 0).
+Proof.
+  intros H. rewrite forallb_forall in H.
+  eapply pc_eq; [apply (pc_sconcat_map _ (edge_vec directed)) | apply vsum_edges].
+  intros e He. apply draw_edge_pc; auto.
+Qed.
+
+Lemma nodes_pc l :
+  forallb node_safe l = true ->
+  pc (sconcat (map draw_node l)) (0, length (filter is_circle_node l), 0, total_wedges l).
+Proof.
+  intros H. rewrite forallb_forall in H.
+  eapply pc_eq; [apply (pc_sconcat_map _ node_vec) | apply vsum_nodes].
+  intros nd Hn. apply draw_node_pc; auto.
+Qed.
+
+Lemma markers_pc markers : forallb safe_field markers = true -> pc (sconcat (map svg_marker markers)) vzero.
+Proof.
+  intros H. rewrite forallb_forall in H.
+  eapply pc_eq; [apply (pc_sconcat_map _ (fun _ => vzero))|].
+  - intros c Hc. apply svg_marker_pc; auto.
+  - induction markers as [|c l IH]; [reflexivity|]. cbn [map vsum]. rewrite IH; [reflexivity|].
+    intros x Hx. apply H. now right.
+Qed.
+
+Lemma pc_counts s a b c d :
+  pc s (a, b, c, d) ->
+  count_starts P_text s = a /\ count_starts P_circle s = b /\ count_starts P_edge s = c /\ count_starts P_wedge s = d.
+Proof. intros [_ H]. unfold cv in H. inversion H; subst. now repeat split. Qed.
+
+(** Counts on the string of visualize_graph: occurrences of the text / circle / edge-path / wedge
+    openings in the whole document, names included. *)
+Theorem visualize_graph_string_counts repl width height display_edges directed markers edges residual nodes
+        names font_size name_position :
+  sanitiser_ok repl = true -> safe_field width = true -> safe_field height = true -> safe_field font_size = true ->
+  forallb safe_field markers = true -> forallb edge_safe edges = true -> forallb edge_safe residual = true ->
+  forallb node_safe nodes = true -> labels_safe names = true ->
+  let doc := visualize_graph_with repl width height display_edges directed markers edges residual nodes
+                                  names font_size name_position in
+  count_starts P_text doc = n_labels names /\
+  count_starts P_circle doc = length (filter is_circle_node nodes) /\
+  count_starts P_edge doc = (if display_edges then length (filter (drawn directed) (edges ++ residual)) else 0) /\
+  count_starts P_wedge doc = total_wedges nodes.
+Proof.
+  intros Hr Hw Hh Hf Hm He Hres Hn Hnm doc. apply pc_counts. unfold doc, visualize_graph_with, svg_header.
+  eapply pc_eq.
+  - eapply pc_app; [pc_tpl|].
+    eapply pc_app.
+    { instantiate (1 := (0, 0, if display_edges then length (filter (drawn directed) (edges ++ residual)) else 0, 0)).
+      destruct display_edges; [|apply pc_nil].
+      eapply pc_eq.
+      - eapply pc_app; [destruct directed; [now apply markers_pc | apply pc_nil]|].
+        eapply pc_app; [now apply edges_pc | now apply edges_pc].
+      - rewrite filter_app, app_length. destruct directed; reflexivity. }
+    eapply pc_app; [now apply nodes_pc|].
+    eapply pc_app; [now apply labels_pc|].
+    pc_tpl.
+  - destruct display_edges; cbn; repeat f_equal; lia.
+Qed.
+
+Theorem visualize_bigraph_string_counts repl width height display_edges edges residual nodes_row nodes_col
+        names_row names_col font_size :
+  sanitiser_ok repl = true -> safe_field width = true -> safe_field height = true -> safe_field font_size = true ->
+  forallb edge_safe edges = true -> forallb edge_safe residual = true ->
+  forallb node_safe nodes_row = true -> forallb node_safe nodes_col = true ->
+  labels_safe names_row = true -> labels_safe names_col = true ->
+  let doc := visualize_bigraph_with repl width height display_edges edges residual nodes_row nodes_col
+                                    names_row names_col font_size in
+  count_starts P_text doc = n_labels names_row + n_labels names_col /\
+  count_starts P_circle doc = length (filter is_circle_node (nodes_row ++ nodes_col)) /\
+  count_starts P_edge doc = (if display_edges then length edges + length residual else 0) /\
+  count_starts P_wedge doc = total_wedges nodes_row + total_wedges nodes_col.
+Proof.
+  intros Hr Hw Hh Hf He Hres Hnr Hnc Hlr Hlc doc. apply pc_counts. unfold doc, visualize_bigraph_with, svg_header2.
+  assert (Hall : forall l, filter (drawn false) l = l).
+  { induction l as [|e l IH]; [reflexivity|]. simpl. now rewrite IH. }
+  eapply pc_eq.
+  - eapply pc_app; [pc_tpl|].
+    eapply pc_app; [pc_leaf|].
+    eapply pc_app.
+    { instantiate (1 := (0, 0, if display_edges then length edges + length residual else 0, 0)).
+      destruct display_edges; [|apply pc_nil].
+      eapply pc_eq; [eapply pc_app; [now apply edges_pc | now apply edges_pc]|].
+      rewrite !Hall. reflexivity. }
+    eapply pc_app; [now apply nodes_pc|].
+    eapply pc_app; [now apply nodes_pc|].
+    eapply pc_app; [now apply labels_pc|].
+    eapply pc_app; [now apply labels_pc|].
+    pc_tpl.
+  - rewrite filter_app, app_length. destruct display_edges; cbn; repeat f_equal; lia.
+Qed.
+
+Lemma merge_top_pc lw m : safe_field lw = true -> merge_safe m = true -> pc (merge_top lw m) (0, 0, 3, 0).
+Proof.
+  intros Hl Hm. unfold merge_safe in Hm. brk Hm. unfold merge_top.
+  eapply pc_eq; [eapply pc_app; [apply svg_line_pc; auto|]; eapply pc_app; apply svg_line_pc; auto | reflexivity].
+Qed.
+
+Lemma merge_left_pc lw m : safe_field lw = true -> merge_safe m = true -> pc (merge_left lw m) (0, 0, 3, 0).
+Proof.
+  intros Hl Hm. unfold merge_safe in Hm. brk Hm. unfold merge_left.
+  eapply pc_eq; [eapply pc_app; [apply svg_line_pc; auto|]; eapply pc_app; apply svg_line_pc; auto | reflexivity].
+Qed.
+
+Theorem visualize_dendrogram_string_counts repl_top repl_left rotate width height names rotate_names font_size
+        line_width merges :
+  sanitiser_ok (if rotate then repl_left else repl_top) = true ->
+  safe_field width = true -> safe_field height = true -> safe_field font_size = true ->
+  safe_field line_width = true -> labels_safe names = true -> forallb merge_safe merges = true ->
+  let doc := visualize_dendrogram_with repl_top repl_left rotate width height names rotate_names font_size
+                                       line_width merges in
+  count_starts P_text doc = n_labels names /\
+  count_starts P_circle doc = 0 /\
+  count_starts P_edge doc = 3 * length merges /\
+  count_starts P_wedge doc = 0.
+Proof.
+  intros Hr Hw Hh Hf Hl Hn Hm doc. apply pc_counts.
+  unfold doc, visualize_dendrogram_with, svg_dendrogram_left_with, svg_dendrogram_top_with, svg_header2.
+  rewrite forallb_forall in Hm.
+  assert (HT : forall (f : label -> string), (forall t, label_safe t = true -> pc (f t) (1, 0, 0, 0)) ->
+               pc (match names with None => "" | Some l => sconcat (map f l) end) (n_labels names, 0, 0, 0)).
+  { intros f Hf'. destruct names as [l|]; [|apply pc_nil]. simpl in Hn. rewrite forallb_forall in Hn.
+    eapply pc_eq; [apply (pc_sconcat_map _ (fun _ => (1, 0, 0, 0))) | apply vsum_texts].
+    intros t Ht. apply Hf'. now apply Hn. }
+  destruct rotate.
+  - eapply pc_eq.
+    + eapply pc_app; [pc_tpl|].
+      eapply pc_app; [apply HT; intros t Ht; now apply dendrogram_text_left_pc|].
+      eapply pc_app; [|pc_leaf].
+      eapply pc_eq; [apply (pc_sconcat_map _ (fun _ => (0, 0, 3, 0))) | apply vsum_lines].
+      intros m Hm'. apply merge_left_pc; auto.
+    + cbn. repeat f_equal; lia.
+  - eapply pc_eq.
+    + eapply pc_app; [pc_tpl|].
+      eapply pc_app; [apply HT; intros t Ht; now apply dendrogram_text_top_pc|].
+      eapply pc_app; [|pc_leaf].
+      eapply pc_eq; [apply (pc_sconcat_map _ (fun _ => (0, 0, 3, 0))) | apply vsum_lines].
+      intros m Hm'. apply merge_top_pc; auto.
+    + cbn. repeat f_equal; lia.
+Qed.
